@@ -25,6 +25,7 @@ pub fn generate(rng: &mut Rng, tier: Tier, stats: &mut GenStats) -> Scenario {
         _ => base.clone(),
     };
     let pf = g.not_pattern(&model, &space_base, &mut stats.rejections);
+    let pf = crate::props::stack::aim_at_rooted(&mut g, &source, pf);
     let walker = Walker {
         source,
         base,
@@ -60,10 +61,11 @@ pub fn check(sc: &Scenario, env: &mut Env) -> Result<Outcome, HarnessError> {
     }
     let ulog = env.run(&usc)?;
     for (wi, w) in sc.walkers.iter().enumerate() {
-        let Some(Layer::Not(pf)) = w.layers.first()
+        let Some(Layer::Not(pf0)) = w.layers.first()
         else {
             continue;
         };
+        let pf = &crate::exec::subst_pattern(pf0, &env.root_text);
         let n = View::of(&log, wi, &sc.cwd);
         let u = View::of(&ulog, wi, &sc.cwd);
         if u.panic.is_some() {
